@@ -77,6 +77,9 @@ class Std(Scenario):
         return u
 
     def budget_key(self, w):
+        if self.addr_budgets is not None:
+            return tuple(tuple(sorted(self.used(w, a).items())) for a in self.addrs) + \
+                (tuple(sorted(self.used(w).items())),)
         return tuple(sorted(self.used(w).items()))
 
     # ------------------------------------------------------------------ enabled events
